@@ -1053,16 +1053,11 @@ bool Builder::FinishCommand(BuildResult::CommandCompleted& result,
     disk_interface_->RemoveFile(rspfile);
   VERIF_CRASH_POINT("finish-after-rspfile-removal");
 
-  if (scan_.build_log()) {
-    if (!scan_.build_log()->RecordCommand(
-            edge, static_cast<int>(start_time_millis),
-            static_cast<int>(end_time_millis), record_mtime)) {
-      *err = string("Error writing to build log: ") + strerror(errno);
-      return false;
-    }
-  }
-  VERIF_CRASH_POINT("finish-after-buildlog");
-
+  // Record the discovered dependencies before the build log entry: if ninja
+  // dies between the two, the old build log entry (or its absence) makes the
+  // edge dirty again.  The other way round a restat command that left its
+  // output alone would be vouched for by the new build log entry while the
+  // deps log still holds the dependencies of the previous run.
   if (!deps_type.empty() && !config_.dry_run) {
     assert(!edge->outputs_.empty() && "should have been rejected by parser");
     for (std::vector<Node*>::const_iterator o = edge->outputs_.begin();
@@ -1077,6 +1072,16 @@ bool Builder::FinishCommand(BuildResult::CommandCompleted& result,
       VERIF_CRASH_POINT("finish-between-depslog-records");
     }
   }
+
+  if (scan_.build_log()) {
+    if (!scan_.build_log()->RecordCommand(
+            edge, static_cast<int>(start_time_millis),
+            static_cast<int>(end_time_millis), record_mtime)) {
+      *err = string("Error writing to build log: ") + strerror(errno);
+      return false;
+    }
+  }
+  VERIF_CRASH_POINT("finish-after-buildlog");
   VERIF_CRASH_POINT("finish-return");
   return true;
 }
